@@ -13,6 +13,13 @@ def run(rep, tier, seed, replay_file=None):
         return L.replay_saved(rep, replay_file)
     quick = tier == "quick"
     rep.assumptions += L.ASSUMPTIONS
+    rep.assumptions.append(
+        "WorkersFault is model-checked with AbortCancels = TRUE, i.e. with the PROPOSED repair of the abort path "
+        "(fixes/workergroup-abort-cancels.diff), which satisfies AbortBound; the code as it is corresponds to AbortCancels = FALSE "
+        "(the MC_wf_*_asis_abort configs: TLC violates AbortBound there exactly as the real code does - known finding "
+        "wgerr/<construct>/abort/other-workers-consume-input*, the repair was withdrawn because TestParallelForEach/AbortOnPanic "
+        "contradicts it); everything else (NothingSwallowed, NeverReported, NilIffNoFailure, exactly-once under Continue*, "
+        "'the failing worker takes no further item') is the same in both variants and is judged on the real code")
     pool = cf.ThreadPoolExecutor(max_workers=2)
 
     # 1. design level, in the background: the implementation-shaped worker group with failing user functions
